@@ -116,8 +116,8 @@ def check_contexts(A, rep):
             continue
         for which, cb in (("obj", "_flush"), ("backend", "_flush_buffer")):
             owner, v = A.model.lookup(cls, cb)
-            for count in (1, 2):
-                b, g = A.ctx_exit_graph(cls, which, count, 0)
+            for count, exc in ((1, False), (2, False), (1, True)):
+                b, g = A.ctx_exit_graph(cls, which, count, 0, exc=exc)
                 rep.context(g.label, True)
                 # a flush forced by restoring a smaller capacity is capacity-forced, not an exit flush
                 calls = [n for n in live(g) if is_enter(n, cb) and len(n.stack) <= 4 and (n["recv"] is not None) and not n.in_extent("set_buffer_capacity")]
@@ -129,8 +129,9 @@ def check_contexts(A, rep):
                     if w is None and right and wd is None:
                         rep.ok("C05.c", f"C05.c {g.label}: leaving the outermost context decrements, then calls {cb} of this {'object' if which == 'obj' else 'class'}")
                     else:
-                        rep.fail("C05.c", norm_key("C05.c", which, "outermost"),
-                                 f"leaving the outermost {which} buffering context does not (always) flush through {cb}, or flushes before the counter is decremented", g.witness(w or wd or []), g.label)
+                        rep.fail("C05.c", norm_key("C05.c", which, "outermost" + ("-exc" if exc else "")),
+                                 f"leaving the outermost {which} buffering context{' while an exception propagates' if exc else ''} does not (always) flush through {cb}, or flushes before the counter is decremented"
+                                 + (": the buffered writes of the block are neither written nor discarded - entries and size survive the context" if exc else ""), g.witness(w or wd or []), g.label)
                 else:
                     if not calls:
                         rep.ok("C05.c", f"C05.c {g.label}: leaving an inner context does not flush")
